@@ -292,6 +292,16 @@ example : selfConnect srvTcp [0x4c,0x4f,0x43,0x41,0x4c,0x48,0x4f,0x53,0x54,0x2e]
 example : selfConnect srvTcp [0x31,0x32,0x37,0x2e,0x30,0x2e,0x30,0x2e,0x32] 8080 .udp = false := by decide +kernel
 example : selfConnect srvTcp [0x65,0x78,0x61,0x6d,0x70,0x6c,0x65,0x2e,0x63,0x6f,0x6d] 8080 .tcp = false := by decide +kernel
 example : selfConnect srvTcp [0x31,0x32,0x38,0x2e,0x30,0x2e,0x30,0x2e,0x30] 8080 .tcp = false := by decide +kernel
+/-- **recorded residual F-C23b (counterexample to the statement read over resolver spellings).** The
+    legacy numeric spelling `127.1` — which the C resolver reads as 127.0.0.1 — is not an `ipaddress`
+    spelling: the specification does not cover it, the guard does not fire, and the socket primitive
+    IS reached on the listener's own port.  `spec_implies_blocked` is the part of the statement that
+    holds: every spelling `ipaddress` parses plus the `localhost` names. -/
+theorem resolver_spelling_counterexample :
+    denotesOwnSocket srvTcp [0x31,0x32,0x37,0x2e,0x31] 8080 .tcp = false ∧
+    selfConnect srvTcp [0x31,0x32,0x37,0x2e,0x31] 8080 .tcp = false ∧
+    Ev.socketOpen ∈ openTrace srvTcp [0x31,0x32,0x37,0x2e,0x31] 8080 .tcp true := by decide +kernel
+
 -- resolver-only spelling "127.1" is outside `ipaddress` and outside the specification (documented residual)
 example : denotesOwnSocket srvTcp [0x31,0x32,0x37,0x2e,0x31] 8080 .tcp = false ∧
     selfConnect srvTcp [0x31,0x32,0x37,0x2e,0x31] 8080 .tcp = false := by decide +kernel
